@@ -1,0 +1,124 @@
+//go:build verif
+
+// Contracts for the configuration-time editing of the rule list (C17, C01, C08), checked by /verif/govc
+// (comment-only file; no code).
+package corazawaf
+
+// sameRule(a, b): the two rule records carry the same identity, metadata, targets, operator, actions and chain link
+// (what a copy of a rule must preserve; the phase-inference bookkeeping written by Add is not part of it).
+//@ define sameRule(a Rule, b Rule) bool := a.ID_ == b.ID_ && a.SecMark_ == b.SecMark_ && a.Tags_ == b.Tags_ && a.Msg == b.Msg &&
+//@     a.Phase_ == b.Phase_ && a.Chain == b.Chain && a.HasChain == b.HasChain && a.ParentID_ == b.ParentID_ &&
+//@     a.actions == b.actions && a.variables == b.variables && a.operator == b.operator
+
+// ruleStays(rg, i): entry i of the list is what it was at entry, position and content (in three parts to keep proofs fast).
+//@ define ruleStaysA(rg *RuleGroup, i int) bool := rg.rules[i].ID_ == old(rg.rules[i].ID_) && rg.rules[i].SecMark_ == old(rg.rules[i].SecMark_) &&
+//@     rg.rules[i].Tags_ == old(rg.rules[i].Tags_) && rg.rules[i].Msg == old(rg.rules[i].Msg)
+//@ define ruleStaysB(rg *RuleGroup, i int) bool := rg.rules[i].Phase_ == old(rg.rules[i].Phase_) &&
+//@     rg.rules[i].Chain == old(rg.rules[i].Chain) && rg.rules[i].HasChain == old(rg.rules[i].HasChain) && rg.rules[i].ParentID_ == old(rg.rules[i].ParentID_)
+//@ define ruleStaysC(rg *RuleGroup, i int) bool :=
+//@     rg.rules[i].actions == old(rg.rules[i].actions) && rg.rules[i].variables == old(rg.rules[i].variables) && rg.rules[i].operator == old(rg.rules[i].operator)
+//@ define ruleStays(rg *RuleGroup, i int) bool := ruleStaysA(rg, i) && ruleStaysB(rg, i) && ruleStaysC(rg, i)
+
+// ---------------------------------------------------------------- DeleteByRange = order-preserving filter (C17)
+// The existing unit proves "no rule of the result lies in [start,end]". Added here: the result is built as the FOLD
+// filter(l[:i+1]) = filter(l[:i]) ++ [l[i]] when l[i].ID_ is outside the range, filter(l[:i]) otherwise, for every
+// stored order of the ids (nothing is assumed about sortedness): step clauses `keepsOutside` / `dropsInside`, earlier
+// entries of the result never change (`earlierStay`), and when no rule is selected the list is reproduced (`noneInRange`).
+//@ func (*RuleGroup).DeleteByRange extend props C17,C07
+// (old(rg.rules)[i]: element i of the list as it was at entry; its fields are not written by the function: oldListUntouched)
+//@   ensures oldListUntouched: forall i int :: 0 <= i && i < len(old(rg.rules)) ==> old(rg.rules)[i].ID_ == old(rg.rules[i].ID_)
+//@   ensures noneInRangeKeepsLen: (forall i int :: 0 <= i && i < len(old(rg.rules)) ==> (old(rg.rules)[i].ID_ < start || old(rg.rules)[i].ID_ > end)) ==>
+//@       len(rg.rules) == len(old(rg.rules))
+//@   ensures sameLenMeansUnchanged: len(rg.rules) == len(old(rg.rules)) ==> (forall i int :: 0 <= i && i < len(rg.rules) ==> rg.rules[i].ID_ == old(rg.rules[i].ID_))
+//@   loop 1
+//@     invariant noneDroppedMeansFull: len(kept) == rangeindex + 1 || (exists i int :: 0 <= i && i <= rangeindex && start <= rg.rules[i].ID_ && rg.rules[i].ID_ <= end)
+//@     invariant fullMeansSame: len(kept) == rangeindex + 1 ==> (forall i int :: 0 <= i && i <= rangeindex ==> kept[i].ID_ == rg.rules[i].ID_)
+//@     step keepsOutside: (rg.rules[rangeindex].ID_ < start || rg.rules[rangeindex].ID_ > end) ==>
+//@         len(kept) == prev(len(kept)) + 1 && sameRule(kept[len(kept)-1], rg.rules[rangeindex])
+//@     step dropsInside: (start <= rg.rules[rangeindex].ID_ && rg.rules[rangeindex].ID_ <= end) ==> len(kept) == prev(len(kept))
+//@     step earlierStay: forall j int :: 0 <= j && j < prev(len(kept)) ==> kept[j].ID_ == prev(kept[j].ID_)
+
+// ---------------------------------------------------------------- DeleteByTag = order-preserving filter by "has the tag" (C17)
+//@ define hasTag(r Rule, tag string) bool := exists k int :: 0 <= k && k < len(r.Tags_) && r.Tags_[k] == tag
+
+//@ func (*RuleGroup).DeleteByTag props C17,C07
+//@   ensures noneTagged: forall j int, k int :: 0 <= j && j < len(rg.rules) && 0 <= k && k < len(rg.rules[j].Tags_) ==> rg.rules[j].Tags_[k] != tag
+//@   ensures notLonger: len(rg.rules) <= len(old(rg.rules))
+//@   ensures oldListUntouched: forall i int :: 0 <= i && i < len(old(rg.rules)) ==> old(rg.rules)[i].ID_ == old(rg.rules[i].ID_) && old(rg.rules)[i].Tags_ == old(rg.rules[i].Tags_)
+// UNPROVED: ensures noneTaggedKeepsLen: (forall i int, k int :: 0 <= i && i < len(old(rg.rules)) && 0 <= k && k < len(old(rg.rules)[i].Tags_) ==> old(rg.rules)[i].Tags_[k] != tag) ==> len(rg.rules) == len(old(rg.rules))
+// UNPROVED: (needs the loop invariant noneDroppedMeansFull below; the solvers answer `unknown` on its preservation: two-variable existential over rules[i].Tags_[k])
+//@   ensures sameLenMeansUnchanged: len(rg.rules) == len(old(rg.rules)) ==> (forall i int :: 0 <= i && i < len(rg.rules) ==> rg.rules[i].ID_ == old(rg.rules[i].ID_))
+//@   loop 1
+//@     invariant bounds: -1 <= rangeindex && rangeindex < len(rg.rules) && rg.rules == old(rg.rules) && len(kept) <= rangeindex + 1
+//@     invariant keptFresh: isnil(kept) || fresh(kept)
+//@     invariant keptUntagged: forall j int, k int :: 0 <= j && j < len(kept) && 0 <= k && k < len(kept[j].Tags_) ==> kept[j].Tags_[k] != tag
+//@     invariant listFrame: forall i int :: 0 <= i && i < len(rg.rules) ==> rg.rules[i].ID_ == old(rg.rules[i].ID_) && rg.rules[i].Tags_ == old(rg.rules[i].Tags_)
+//@     invariant tagsFrame: forall i int, k int :: 0 <= i && i < len(rg.rules) && 0 <= k && k < len(rg.rules[i].Tags_) ==> rg.rules[i].Tags_[k] == old(rg.rules[i].Tags_[k])
+// UNPROVED: invariant noneDroppedMeansFull: len(kept) == rangeindex + 1 || (exists i int, k int :: 0 <= i && i <= rangeindex && 0 <= k && k < len(rg.rules[i].Tags_) && rg.rules[i].Tags_[k] == tag)
+//@     invariant fullMeansSame: len(kept) == rangeindex + 1 ==> (forall i int :: 0 <= i && i <= rangeindex ==> kept[i].ID_ == rg.rules[i].ID_)
+//@     step keepsUntagged: !hasTag(rg.rules[rangeindex], tag) ==>
+//@         len(kept) == prev(len(kept)) + 1 && sameRule(kept[len(kept)-1], rg.rules[rangeindex])
+//@     step dropsTagged: hasTag(rg.rules[rangeindex], tag) ==> len(kept) == prev(len(kept))
+//@     step earlierStay: forall j int :: 0 <= j && j < prev(len(kept)) ==> kept[j].ID_ == prev(kept[j].ID_) && kept[j].Tags_ == prev(kept[j].Tags_)
+
+// ---------------------------------------------------------------- Add = append at the end (C01 configuration order, C17)
+// dupChecked(rule): the code looks for an existing rule with the same id: always for an id != 0 in the default build;
+// in the mandatory-id build for every rule that is not a marker.
+//@ define dupChecked(rule *Rule) bool := ite(shouldDoMandatoryRuleIdCheck, rule.SecMark_ == "" && rule.ID_ != 0, rule.ID_ != 0)
+//@ define idPresent(rg *RuleGroup, id int) bool := exists i int :: 0 <= i && i < len(old(rg.rules)) && old(rg.rules[i].ID_) == id
+
+//@ func (*RuleGroup).Add props C01,C17,C07
+// a rule that was linked into a pending chain by ParseRule arrives here as nil: nothing is added
+//@   ensures nilIsNoop: rule == nil ==> isnil(result) && rg.rules == old(rg.rules)
+//@   ensures duplicateRejected: rule != nil && old(dupChecked(rule)) && idPresent(rg, old(rule.ID_)) ==> !isnil(result)
+//@   ensures missingIdRejected: rule != nil && shouldDoMandatoryRuleIdCheck && old(rule.SecMark_) == "" && old(rule.ID_) == 0 ==> !isnil(result)
+//@   ensures errorChangesNothing: !isnil(result) ==> rg.rules == old(rg.rules) &&
+//@       (forall i int :: 0 <= i && i < len(rg.rules) ==> ruleStays(rg, i))
+//@   ensures appendedAtEnd: isnil(result) && rule != nil ==> len(rg.rules) == len(old(rg.rules)) + 1 &&
+//@       sameRule(rg.rules[len(rg.rules)-1], rule) && rg.rules[len(rg.rules)-1].ID_ == old(rule.ID_) && rg.rules[len(rg.rules)-1].SecMark_ == old(rule.SecMark_)
+//@   ensures earlierKeepPlace: isnil(result) && rule != nil ==> (forall i int :: 0 <= i && i < len(old(rg.rules)) ==> ruleStaysA(rg, i))
+//@   ensures earlierKeepPhaseAndChain: isnil(result) && rule != nil ==> (forall i int :: 0 <= i && i < len(old(rg.rules)) ==> ruleStaysB(rg, i))
+//@   ensures earlierKeepContent: isnil(result) && rule != nil ==> (forall i int :: 0 <= i && i < len(old(rg.rules)) ==> ruleStaysC(rg, i))
+//@   ensures ruleItselfKept: rule != nil ==> rule.ID_ == old(rule.ID_) && rule.SecMark_ == old(rule.SecMark_) && rule.Phase_ == old(rule.Phase_) &&
+//@       rule.operator == old(rule.operator) && rule.Chain == old(rule.Chain) && rule.HasChain == old(rule.HasChain) && rule.actions == old(rule.actions)
+//@   ensures idsStayUnique: isnil(result) && rule != nil && old(dupChecked(rule)) ==>
+//@       (forall i int :: 0 <= i && i < len(old(rg.rules)) ==> rg.rules[i].ID_ != rg.rules[len(rg.rules)-1].ID_)
+//@   loop 1
+//@     invariant listKept: rg.rules == old(rg.rules) && rule != nil && rule.ID_ == old(rule.ID_) && rule.SecMark_ == old(rule.SecMark_)
+//@     invariant listFrameA: forall i int :: 0 <= i && i < len(rg.rules) ==> ruleStaysA(rg, i)
+//@     invariant listFrameB: forall i int :: 0 <= i && i < len(rg.rules) ==> ruleStaysB(rg, i)
+//@     invariant listFrameC: forall i int :: 0 <= i && i < len(rg.rules) ==> ruleStaysC(rg, i)
+//@     invariant idAbsent: old(dupChecked(rule)) ==> (forall i int :: 0 <= i && i < len(rg.rules) ==> rg.rules[i].ID_ != rule.ID_)
+
+// NewRule: a blank rule: no id, no marker, phase 2, no operator, no actions, no chain.
+//@ func NewRule props C01,C17
+//@   ensures blank: result != nil && fresh(result) && result.ID_ == 0 && result.SecMark_ == "" && result.Phase_ == 2 && result.operator == nil &&
+//@       result.Chain == nil && !result.HasChain && result.ParentID_ == 0 && len(result.actions) == 0 && len(result.Tags_) == 0
+
+// ---------------------------------------------------------------- actions of a rule (C17, C02)
+//@ func (*Rule).AddAction props C17,C07
+//@   ensures accepted: isnil(result)
+//@   ensures appendedLast: len(r.actions) == len(old(r.actions)) + 1 && r.actions[len(r.actions)-1].Name == name && r.actions[len(r.actions)-1].Function == action
+//@   ensures earlierKept: forall k int :: 0 <= k && k < len(old(r.actions)) ==> r.actions[k].Name == old(r.actions[k].Name) && r.actions[k].Function == old(r.actions[k].Function)
+
+// ClearDisruptiveActions removes exactly the actions of type Disruptive and keeps the others in order (fold, as above).
+//@ define isDisrA(a ruleActionParams) bool := actionType(a.Function) == plugintypes.ActionTypeDisruptive
+//@ func (*Rule).ClearDisruptiveActions props C17,C02,C07
+//@   ensures noneDisruptive: forall j int :: 0 <= j && j < len(r.actions) ==> !isDisrA(r.actions[j])
+//@   ensures notLonger: len(r.actions) <= len(old(r.actions))
+//@   ensures oldListUntouched: forall i int :: 0 <= i && i < len(old(r.actions)) ==> old(r.actions)[i].Function == old(r.actions[i].Function)
+//@   ensures noneDisruptiveKeepsLen: (forall i int :: 0 <= i && i < len(old(r.actions)) ==> !isDisrA(old(r.actions)[i])) ==> len(r.actions) == len(old(r.actions))
+//@   ensures sameLenMeansUnchanged: len(r.actions) == len(old(r.actions)) ==>
+//@       (forall i int :: 0 <= i && i < len(r.actions) ==> r.actions[i].Name == old(r.actions[i].Name) && r.actions[i].Function == old(r.actions[i].Function))
+//@   loop 1
+//@     invariant bounds: -1 <= rangeindex && rangeindex < len(r.actions) && r.actions == old(r.actions) && len(filtered) <= rangeindex + 1
+//@     invariant room: fresh(filtered) && cap(filtered) == len(r.actions)
+//@     invariant filteredClean: forall j int :: 0 <= j && j < len(filtered) ==> !isDisrA(filtered[j])
+//@     invariant listFrame: forall i int :: 0 <= i && i < len(r.actions) ==> r.actions[i].Name == old(r.actions[i].Name) && r.actions[i].Function == old(r.actions[i].Function)
+//@     invariant noneDroppedMeansFull: len(filtered) == rangeindex + 1 || (exists i int :: 0 <= i && i <= rangeindex && isDisrA(r.actions[i]))
+//@     invariant fullMeansSame: len(filtered) == rangeindex + 1 ==>
+//@         (forall i int :: 0 <= i && i <= rangeindex ==> filtered[i].Name == r.actions[i].Name && filtered[i].Function == r.actions[i].Function)
+//@     step keepsOthers: !isDisrA(r.actions[rangeindex]) ==> len(filtered) == prev(len(filtered)) + 1 &&
+//@         filtered[len(filtered)-1].Name == r.actions[rangeindex].Name && filtered[len(filtered)-1].Function == r.actions[rangeindex].Function
+//@     step dropsDisruptive: isDisrA(r.actions[rangeindex]) ==> len(filtered) == prev(len(filtered))
+//@     step earlierStay: forall j int :: 0 <= j && j < prev(len(filtered)) ==> filtered[j].Name == prev(filtered[j].Name) && filtered[j].Function == prev(filtered[j].Function)
